@@ -730,8 +730,8 @@ func filterRow(f *btpb.RowFilter, r *btpb.Row) (bool, error) {
 					col.Cells = col.Cells[offset:]
 					return true, nil
 				}
-				col.Cells = col.Cells[:0]
 				offset -= len(col.Cells)
+				col.Cells = col.Cells[:0]
 			}
 		}
 		return true, nil
